@@ -33,7 +33,7 @@ type CacheScen struct {
 	Sim     SimCfg           `json:"sim"`
 }
 
-var cacheKeys = [][2]string{{"n1", "a"}, {"", "a"}, {"n1", "b"}, {"n2", "a"}} // "" = a cluster-scoped object (nodes have no namespace)
+var cacheKeys = [][2]string{{"n1", "a"}, {"", "a"}, {"n1", "b"}, {"n2", "a"}, {"n-1", "a"}, {"n", "1-a"}} // "" = a cluster-scoped object (nodes have no namespace); the last two collide under a "-" join
 var weirdVersions = []string{"", "0", "-1", "+3", "007", "abc", "9999999999999999999", "1.5", " 4"}
 
 func genSpec(rng *rand.Rand, nkeys int) world.Spec {
@@ -172,8 +172,13 @@ func genCache(g GenCtx) interface{} {
 		}
 		genCacheBulk(rng, sc)
 	} else {
-		nkeys := 1 + rng.Intn(4)
+		nkeys := 1 + rng.Intn(6)
 		n := 1 + rng.Intn(12)
+		if g.Idx%64 == 8 {
+			// a long-lived cache: hundreds of syncs / refilters on one cache
+			// (counters, generations, anything that wraps or accumulates)
+			n = 260 + rng.Intn(300)
+		}
 		for i := 0; i < n; i++ {
 			sc.Ops = append(sc.Ops, genCacheOp(rng, nkeys))
 		}
